@@ -1,5 +1,6 @@
 // C10: a linear domain transform acts as an exact change of variables.
 // args: <grid spec (canonical)> <mode>   mode 0: identities with symbolic (a, r = b - a) and symbolic canonical point  | mode 1: getDomainInside predicate
+//                                        mode 2: conformal (asin) map composed with a CONCRETE linear transform, symbolic values: the composition is a change of variables and the forward / inverse maps are mutual inverses
 // Parametrisation: b := a + r with r >= 0.1 (Gauss-Laguerre: rate b directly; Gauss-Hermite: b := s*s, s > 0), so every division in the
 // transform code is a division by a monomial and the identities reduce to polynomial residuals.
 #include "tgrid.hpp"
@@ -11,6 +12,35 @@ int main(int argc, char **argv){
   GridSpec g = parseSpec(argv[1]); int mode = atoi(argv[2]); g.transform = 0;
   int d = g.dims, outs = g.outputs; Fam fam = famOf(g);
   TasmanianSparseGrid g0, g1; makeGrid(g0, g); makeGrid(g1, g);
+  if (mode == 2){
+    if (fam != F_INTERVAL || outs == 0){ fpsym_finish(); return 0; }
+    TasmanianSparseGrid gc, gb; makeGrid(gc, g); makeGrid(gb, g);
+    std::vector<double> ta(d), tb(d); for (int j=0;j<d;j++){ ta[j] = 0.25 * j; tb[j] = 4.0 - 0.5 * j; }
+    std::vector<int> trunc(d); for (int j=0;j<d;j++) trunc[j] = 4 + 2 * j;
+    gc.setConformalTransformASIN(trunc); gb.setConformalTransformASIN(trunc); gb.setDomainTransform(ta, tb);
+    auto L = [&](int j, double c)->double{ return 0.5 * (tb[j] - ta[j]) * c + 0.5 * (tb[j] + ta[j]); };
+    std::vector<double> pc = gc.getPoints(), pb = gb.getPoints(); int np = gc.getNumPoints();
+    bool mapped = true; for (int i=0;i<np;i++) for (int j=0;j<d;j++) if (std::fabs(pb[(size_t) i * d + j] - L(j, pc[(size_t) i * d + j])) > 1e-12) mapped = false;
+    fpsym_check(mapped, "conformal + linear: getPoints() are the linearly mapped points of the grid with the conformal map alone");
+    SymModel model(outs, 1000, -1.0, 1.0, g.family != "wavelet");
+    std::vector<double> vals = model.values(pc, d); gc.loadNeededValues(vals); gb.loadNeededValues(vals);
+    double sc = 50.0 * (2.0 + np);
+    bool interp = !(gc.isGlobal() && OneDimensionalMeta::isNonNested(gc.getRule())) && (!gc.isLocalPolynomial() || lpParentComplete(gc));
+    for (int i=0;i<np;i++){
+      // forward then inverse map: evaluating at a returned point lands on the node again
+      std::vector<double> yb, yc; gb.evaluate(pointAt(pb, d, i), yb); gc.evaluate(pointAt(pc, d, i), yc);
+      for (int k=0;k<outs;k++){ fpsym_eq(yb[k], yc[k], sc, "conformal + linear: evaluate at a point of getPoints() equals the conformal-only grid at its point (forward and inverse maps are mutual inverses)");
+        if (interp) fpsym_eq(yb[k], vals[(size_t) i * outs + k], sc, "conformal + linear: the surrogate reproduces the value loaded at that point"); }
+    }
+    for (int p=0;p<3;p++){ std::vector<double> c(d), x(d); for (int j=0;j<d;j++){ c[j] = -0.83 + 0.47 * p + 0.11 * j; x[j] = L(j, c[j]); }
+      std::vector<double> yb, yc; gb.evaluate(x, yb); gc.evaluate(c, yc);
+      for (int k=0;k<outs;k++) fpsym_eq(yb[k], yc[k], sc, "conformal + linear: evaluate(L(c)) equals the conformal-only surrogate at c (the maps compose)"); }
+    std::vector<double> wc = gc.getQuadratureWeights(), wb = gb.getQuadratureWeights(); double f = 1.0; for (int j=0;j<d;j++) f *= 0.5 * (tb[j] - ta[j]);
+    bool wok = wc.size() == wb.size(); for (size_t i=0;i<wc.size() && wok;i++) if (std::fabs(wb[i] - wc[i] * f) > 1e-10 * (1.0 + std::fabs(wc[i] * f))) wok = false;
+    fpsym_check(wok, "conformal + linear: quadrature weights are the conformal-only weights times the volume factor");
+    if (model.symbolic) fpsym_nonconst(vals[0], "witness: values are symbolic");
+    fpsym_finish(); return 0;
+  }
   std::vector<double> a(d), b(d), r(d), s(d);
   for (int j=0;j<d;j++){
     a[j] = fpsym_symbolic(-0.5 + 0.75 * j, 10 + j, -2.0, 2.0);
@@ -82,6 +112,21 @@ int main(int argc, char **argv){
     if (!g0.isWavelet()){
       std::vector<double> j0, j1; g0.differentiate(c, j0); g1.differentiate(x, j1);
       for (int k=0;k<outs;k++) for (int j=0;j<d;j++) fpsym_eq(j1[(size_t) k * d + j], j0[(size_t) k * d + j] * dTinv(j), sc * 64.0, "differentiate obeys the chain rule: transformed Jacobian == canonical Jacobian x d(canonical)/d(transformed)");
+    }
+    { // the same factor applies in every state of the grid: loaded, and loaded with a pending refinement (the weights then belong to the loaded points)
+      std::vector<double> wl0 = g0.getQuadratureWeights(), wl1 = g1.getQuadratureWeights();
+      fpsym_check(wl0.size() == wl1.size(), "loaded grid: as many quadrature weights as the canonical grid");
+      for (size_t i=0;i<wl0.size() && i<wl1.size();i++) fpsym_eq(wl1[i], wl0[i] * qf, big * big, "quadrature weights of the LOADED grid scale by the documented factor");
+      if (!OneDimensionalMeta::isNonNested(g0.getRule())){
+        TasmanianSparseGrid r0(g0), r1(g1);
+        if (r0.isLocalPolynomial() || r0.isWavelet()){ r0.setSurplusRefinement(0.0, refine_classic, -1); r1.setSurplusRefinement(0.0, refine_classic, -1); }
+        else { r0.setAnisotropicRefinement(type_iptotal, 2, 0); r1.setAnisotropicRefinement(type_iptotal, 2, 0); }
+        std::vector<double> wr0 = r0.getQuadratureWeights(), wr1 = r1.getQuadratureWeights();
+        fpsym_check(wr0.size() == wr1.size() && r0.getNumNeeded() == r1.getNumNeeded(), "pending refinement: same number of weights and needed points as the canonical grid");
+        for (size_t i=0;i<wr0.size() && i<wr1.size();i++) fpsym_eq(wr1[i], wr0[i] * qf, big * big, "quadrature weights of the grid with a PENDING refinement scale by the documented factor");
+        std::vector<double> n0 = r0.getNeededPoints(), n1 = r1.getNeededPoints();
+        for (size_t i=0;i<n0.size() && i<n1.size();i++) fpsym_eq(n1[i], T((int) (i % d), n0[i]), big, "getNeededPoints() of a pending refinement are the mapped canonical points");
+      }
     }
     std::vector<double> q0, q1; g0.integrate(q0); g1.integrate(q1);
     for (int k=0;k<outs;k++) fpsym_eq(q1[k], q0[k] * qf, sc * big, "integrate() scales by the documented factor");
